@@ -87,6 +87,12 @@ CHECKS.update({
          "Trusts harness/src/big.rs; no string-to-double routine is trusted (the returned double is checked against both neighbouring midpoints by cross-multiplication).", "4/C19"),
 })
 
+CHECKS.update({
+ "C16": ("model-based history testing: generated call histories (one shrinkable value) checked after every step against a no-state reference model whose predictions come from isolated child processes; concurrent replay on 16 threads (proptest)",
+         "Exploration: 48 (quick) / 1600 (thorough) histories of 200-1000+ calls mixing evaluators, repeated expressions with changing placeholders, failing and malformed inputs; each call must equal the isolated first-time outcome; the same history is then replayed by 16 threads at different rotations and one key is hammered with per-thread placeholders.",
+         "Thread schedules are sampled by the OS, not enumerated (the crate has no synchronisation primitive to intercept); sequential order dependence is explored by generated histories only.", "4/C16"),
+})
+
 NOT_YET = {
 }
 
